@@ -655,6 +655,8 @@ def evaluate__range_expression(self: XPathToken, context: ta.ContextType = None)
         return xlist(range(start, stop + 1))
     except TypeError:
         return []
+    except OverflowError as err:
+        raise self.error('FOAR0002', err) from None
 
 
 @method('to')
